@@ -112,4 +112,45 @@ namespace vh
         fs::remove_all(dir);
         return out;
     }
+
+    // pbo2 <hex bytes of archive A> <hex bytes of archive B>: both archives are mounted (as two --input-pbo arguments
+    // would), then the entries of A and of B are read alternately through the virtual file system, each under the prefix
+    // of its own archive: "r=<bytes of A0>;<bytes of B0>;<bytes of A1>;..." ('?' not found, '-' empty)
+    inline std::string verb_pbo2(const std::vector<std::string>& f)
+    {
+        namespace fs = std::filesystem;
+        if (f.size() < 2) { return "bad-args"; }
+        fs::path dir = fs::path("/var/tmp/sqfvm-verif/pbo-scratch") / std::to_string((long)getpid());
+        fs::remove_all(dir);
+        fs::create_directories(dir);
+        fs::path fa = dir / "a.pbo", fb = dir / "b.pbo";
+        { std::ofstream o(fa, std::ios::binary); o.write(f[0].data(), (std::streamsize)f[0].size()); }
+        { std::ofstream o(fb, std::ios::binary); o.write(f[1].data(), (std::streamsize)f[1].size()); }
+        std::string out = "r=";
+        {
+            auto v = make_vm(regmode::real);
+            auto& io = static_cast<sqf::fileio::impl_default&>(v.rt->fileio());
+            io.add_pbo_mapping(fa);
+            io.add_pbo_mapping(fb);
+            rvutils::pbo::pbofile pa(fa), pb(fb);
+            if (!pa.good() || !pb.good()) { fs::remove_all(dir); return "not-good"; }
+            auto la = pa.files(), lb = pb.files();
+            auto pra = pa.attribute("prefix"), prb = pb.attribute("prefix");
+            auto rd = [&](const std::optional<std::string>& prefix, const std::string& name)
+            {
+                if (!prefix.has_value()) { return std::string("noprefix"); }
+                std::string virt = *prefix + "/" + name;
+                std::replace(virt.begin(), virt.end(), '\\', '/');
+                auto info = io.get_info(virt, sqf::runtime::fileio::pathinfo(std::string(), std::string()));
+                return info.has_value() ? hex_of(io.read_file(*info)) : std::string("?");
+            };
+            for (size_t i = 0; i < std::max(la.size(), lb.size()); i++)
+            {
+                if (i < la.size()) { out += rd(pra, la[i].name) + ";"; }
+                if (i < lb.size()) { out += rd(prb, lb[i].name) + ";"; }
+            }
+        }
+        fs::remove_all(dir);
+        return out;
+    }
 }
